@@ -88,7 +88,7 @@ func runScript(w *zsim.World, in *exec.Interpreter, src string, inputs r.Element
 	if inputs == nil {
 		inputs = r.ElementMap{}
 	}
-	return execute(w, func() (r.Element, error) { return in.LoadScript([]rune(src)).Execute(inputs) })
+	return execute(w, func() (r.Element, error) { return in.LoadScript(sharedRunes(src)).Execute(inputs) })
 }
 
 func runFile(w *zsim.World, in *exec.Interpreter, path string, inputs r.ElementMap) ExecResult {
@@ -96,6 +96,19 @@ func runFile(w *zsim.World, in *exec.Interpreter, path string, inputs r.ElementM
 		inputs = r.ElementMap{}
 	}
 	return execute(w, func() (r.Element, error) { return in.LoadFile(path).Execute(inputs) })
+}
+
+// sharedRunes: an embedding application holds a program text once and executes it many times;
+// every execution of the same text in this process is handed the SAME rune slice.
+var runeCache = map[string][]rune{}
+
+func sharedRunes(src string) []rune {
+	rs, ok := runeCache[src]
+	if !ok {
+		rs = []rune(src)
+		runeCache[src] = rs
+	}
+	return rs
 }
 
 // pick helpers over the tape
